@@ -1,3 +1,4 @@
 //! Reference models: written from the property statements and the documented formats,
 //! independently of the implementation.
+pub mod routes;
 pub mod wire;
